@@ -18,6 +18,7 @@ var evalCodeText = map[int]string{
 	6:  "TryEval loop model run on the implementation's own program differs from TryEval",
 	7:  "TryEval result/effects differ from its tree-level meaning",
 	8:  "the implementation's program fails the static stack-bound validation",
+	9:  "registered operators invoked during Compile differ from the model's constant-folding log",
 	50: "outside the property's domain (non-boolean operand of and/or): not compared",
 }
 
@@ -103,6 +104,12 @@ func mkEvalCase(sp *EvalSpec) evalOutcome {
 		return evalOutcome{Skipped: "harness rendered a source the parser rejects: " + err.Error() + " :: " + src}
 	}
 	optTerm, progTerm, evalTerm, tryTerm := "None", "None", "None", "None"
+	var ccalls []string
+	for _, o := range b.CompileLog.Log {
+		ccalls = append(ccalls, fmt.Sprintf("(%s, %s)", coqStr(o.Name), coqValues(o.Args)))
+	}
+	ccTerm := "Some " + coqList(ccalls)
+	nCompileCalls := len(ccalls)
 	sample := map[string]interface{}{"source": clip(src, 300), "config": rc.Describe()}
 	tags := append([]string{}, sp.Tags...)
 	nontrivial := false
@@ -170,8 +177,12 @@ func mkEvalCase(sp *EvalSpec) evalOutcome {
 		}
 		sort.Strings(availNames)
 	}
-	term := fmt.Sprintf("{| ec_cfg := %s; ec_tree := %s; ec_env := %s; ec_avail := %s; ec_cerr := %d%%N; ec_opt := %s; ec_prog := %s; ec_eval := %s; ec_try := %s |}",
-		rc.Coq(), sp.Tree.Coq(), envCoq(sp.Bind, names), coqStrList(availNames), code, optTerm, progTerm, evalTerm, tryTerm)
+	term := fmt.Sprintf("{| ec_cfg := %s; ec_tree := %s; ec_env := %s; ec_avail := %s; ec_cerr := %d%%N; ec_opt := %s; ec_prog := %s; ec_eval := %s; ec_try := %s; ec_ccalls := %s |}",
+		rc.Coq(), sp.Tree.Coq(), envCoq(sp.Bind, names), coqStrList(availNames), code, optTerm, progTerm, evalTerm, tryTerm, ccTerm)
+	sample["compile_time_calls"] = nCompileCalls
+	if nCompileCalls > 0 {
+		tags = append(tags, "compile-time-call")
+	}
 	sample["binding"] = bindingString(sp.Bind, names)
 	if sp.Avail != nil {
 		sample["available"] = availNames
